@@ -386,6 +386,10 @@ func (e *Engine) applyContract(fr *Frame, st *State, fn *ssa.Function, c *Contra
 	defer applySets()
 	if c.NoFrame {
 		// the callee's frame is not verified: nothing may be assumed unchanged
+		if cc := e.curContract; cc != nil && !cc.NoFrame && e.entryState != nil {
+			// a function with a frame of its own cannot call a callee whose frame is unknown
+			e.vc.oblige(cname+":frame", st.pc, "false", "call of "+c.Key+", which has no verified frame (noframe), from a function whose own frame is claimed")
+		}
 		e.havocWholeHeap(st, "callee "+c.Key+" has no verified frame (noframe)", c.Preserves...)
 	}
 	// a callee may allocate: watermark is non-decreasing
